@@ -3,6 +3,8 @@ program_utils.{list_to_grid, grid_to_DAG, DAG_to_list, group_operations} and com
 plus the property-level oracle on every list the real code returns."""
 import itertools
 
+import numpy as np
+
 from lib import progs
 
 RULE = ("random circuits over 1-6 modes (thorough: 1-9), 0-14 commands from all gate/channel/preparation/"
@@ -74,6 +76,12 @@ def check_spec(ctx, sf, spec, reqs, pending, marked_cls=("MeasureFock",)):
     prog, cmds = progs.build(spec)
     ident = {id(c): i for i, c in enumerate(cmds)}
     marked = lambda op: op["cls"] in marked_cls
+    if marked_cls == ("@feedforward",):       # predicates that tell apart two operations of ONE class
+        marked = lambda op: any(isinstance(p_, dict) for p_ in op.get("pars", []))
+    elif marked_cls == ("@selected",):
+        marked = lambda op: op.get("select") is not None
+    elif marked_cls == ("@positive",):
+        marked = lambda op: bool(op.get("pars")) and not isinstance(op["pars"][0], dict) and op["pars"][0] > 0
     l = progs.to_cmds(spec, marked)
     nt = nontrivial(spec)
 
@@ -104,6 +112,13 @@ def check_spec(ctx, sf, spec, reqs, pending, marked_cls=("MeasureFock",)):
     cls_of = {op["cls"] for op in spec["ops"]}
     from strawberryfields import ops as sfops
     pred = lambda o: o.__class__.__name__ in marked_cls
+    if marked_cls == ("@feedforward",):
+        pred = lambda o: bool(getattr(o, "measurement_deps", None))
+    elif marked_cls == ("@selected",):
+        pred = lambda o: getattr(o, "select", None) is not None
+    elif marked_cls == ("@positive",):
+        from strawberryfields.parameters import par_is_symbolic
+        pred = lambda o: bool(getattr(o, "p", None)) and not par_is_symbolic(o.p[0]) and np.ndim(o.p[0]) == 0 and o.p[0] > 0
     with Recorder() as rec:
         A, B, C = pu.group_operations(cmds, pred)
     a, b, c = ids(A), ids(B), ids(C)
@@ -411,6 +426,9 @@ def run(ctx, sf):
             spec = progs.with_del_new(rng, spec, p_del=1.0)
             ctx.tally("with-del-new")
         marked = ("MeasureFock",) if k % 3 else tuple(rng.sample(["Sgate", "BSgate", "MeasureHomodyne", "Rgate", "LossChannel", "Dgate"], 2))
+        if k % 6 == 3:
+            marked = (rng.choice(["@feedforward", "@selected"]),)
+            ctx.tally("group-predicate:" + marked[0])
         check_spec(ctx, sf, spec, reqs, pending, marked)
         if len(reqs) > 4000:
             compare(ctx, reqs, pending); reqs, pending = [], []
